@@ -336,6 +336,17 @@ func isKnownC06(r sourceaddrs.RemoteSource) string {
 		// it prints as "//", which every parser takes for the sub-path marker
 		return "addr.pkgpath-double-slash"
 	}
+	if strings.HasPrefix(u.Opaque, ":") {
+		// F50: the "type::" prefix was not recognised because the address contains a line break (the prefix
+		// pattern's '.' does not match it), so the whole text was parsed as a URL whose opaque part begins with
+		// ':'; the printed form escapes the line break, and there the prefix IS recognised
+		return "addr.type-prefix-missed-opaque"
+	}
+	if sp != "" && strings.HasSuffix(u.EscapedPath(), ":") {
+		// F51: a package path ending in ':' followed by the sub-path marker prints "…://sub", and splitSubPath
+		// takes that "://" for the scheme separator
+		return "addr.pkgpath-colon-before-subpath"
+	}
 	if strings.Contains(u.Fragment, "//") {
 		// F49: the decoded fragment has "//" (written %2f%2f): it is printed decoded, and every parser takes
 		// the "//" for the sub-path marker (thorough tier, seed 51)
